@@ -74,13 +74,16 @@ def prose_of_shape(rng, shape):
         # prose that already carries a default sentence (as parse leaves it with emit_default_doc=True)
         return G.clean_prose(rng, terminal=rng.choice([".", ","])) + rng.choice([" Defaults to ", " defaults to "]) + \
             rng.choice(["7", "0.5", "mnist", "True", "None"])
+    if shape == "optlead":
+        # prose that opens with the word the parsers read as a type hint (_set_name_and_type)
+        return rng.choice(["Optional ", "(Optional) ", "Optional, ", "Optionally "]) + G.clean_prose(rng)
     return G.prose(rng, spice=0.35)
 
 
 def gen_param(rng, tags):
     shape = rng.choice(TYPE_SHAPES)
     typ = typ_of_shape(rng, shape)
-    pshape = rng.choice(["clean", "clean", "clean", "clean", "comma", "noterm", "spicy", "absent", "announced"])
+    pshape = rng.choice(["clean", "clean", "clean", "clean", "comma", "noterm", "spicy", "absent", "announced", "optlead"])
     doc = prose_of_shape(rng, pshape)
     dk, dv = consistent_default(rng, typ)
     p = {}
